@@ -424,6 +424,8 @@ fn main() {
         let j: J = serde_json::from_str(&line).expect("json");
         let rec = if mode == "probe" { probe(&ctx, &j) } else { replay_case(&ctx, &j) };
         writeln!(out, "{}", rec).unwrap();
+        // flush per record: a stack overflow of the code under test cannot be caught, the driver
+        // must see exactly which case killed the process
+        out.flush().unwrap();
     }
-    out.flush().unwrap();
 }
